@@ -279,6 +279,21 @@ def orphans_resolve_links(chk: Check):
         chk.require(any(pol is False for _, pol in gl), chk.fkey(f, "links are unlinked"), "rmtree can be called on a symbolic link (it raises): links among the stored jobs must be unlinked", chk.loc(f.module, c))
     adds = [c for c in fn_calls(f.node) if tail(c) == "add" and c.args and ".resolve()" in src(c.args[0])]
     chk.require(bool(adds), chk.fkey(f, "collects resolved index entries"), "orphans does not record the folders the index entries resolve to", loc)
+    # both sides of the comparison are fully resolved paths: a repair link resolves through another link, and the stored folder may be reached
+    # through a relative or symlinked workspace path (readlink / the path as typed are not the folder)
+    sets = {src(c.func.value) for c in adds}
+    for c in fn_calls(f.node):
+        if tail(c) == "add" and c.args and src(c.func.value) in sets:
+            for nd in g.nodes_of(c):
+                a = rd.canon(c.args[0], nd)
+                chk.require(a.endswith(".resolve()") and "readlink" not in a, chk.fkey(f, "index entries fully resolved"),
+                            f"`{src(c)[:70]}` records `{a[:60]}`, not the fully resolved folder: a repair link (a link to a link's target) is taken for the folder itself", chk.loc(f.module, c))
+    for n, c in rms:
+        for t, pol in g.guards(n):
+            if t.kind == "test" and isinstance(t.ast, ast.Compare) and isinstance(t.ast.ops[0], (ast.In, ast.NotIn)) and src(t.ast.comparators[0]) in sets:
+                l = rd.canon(t.ast.left, t)
+                chk.require(l.endswith(".resolve()"), chk.fkey(f, "stored folder fully resolved"),
+                            f"the stored folder is compared as `{l[:60]}`: with a relative or symlinked workspace path it never equals the resolved index entries and referenced data is deleted", chk.loc(f.module, t.ast))
 
 
 def r5_orphans_index(chk: Check):
